@@ -28,10 +28,7 @@ type renderSpec struct {
 }
 
 func checkC14(c *Ctx, r *Report) {
-	r.Rule("R-SIZE", "output matrix size term: QR/1-D max(requested, symbol + quiet zone) per axis (1-D height max(1, requested)); Data Matrix: requested size when the symbol fits in both directions, the bare symbol size otherwise", 3)
-	r.Rule("R-SCALE", "module size term: the integer quotient out / (symbol + quiet zone), minimum over both axes for 2-D", 3)
-	r.Rule("R-PAD", "padding term: (out - symbol*scale) / 2 per axis (Data Matrix: zero when the request is smaller than the symbol)", 3)
-	r.Rule("R-BLOCK", "each set module (i, j) is painted as SetRegion(padX + i*scale, padY + j*scale, scale, scale) (1-D: (pad + i*scale, 0, scale, outHeight)) exactly when the input module is set; loops cover the whole symbol; the output starts cleared", 3)
+	declareRenderRules(r, 3)
 	r.Rule("R-MARGIN", "default quiet zones: QR 4 modules per side, 1-D writers 10 modules in total, UPC/EAN writers 9; a MARGIN hint replaces them; BitMatrix.At maps a set bit to black", 4)
 	renderQR(c, r)
 	renderDM(c, r)
@@ -40,6 +37,15 @@ func checkC14(c *Ctx, r *Report) {
 	checkWriterStateless(c, r)
 	checkWholeOps(c, r) // SetRegion's own bit arithmetic (same obligations as under C16)
 	r.Note("not decided: that sampling block centres returns the module matrix is a consequence of these terms plus SetRegion's contract")
+}
+
+// declareRenderRules declares the rendering-term rules (shared by C14 and the round-trip properties, whose statements
+// quantify over the requested pixel size); n is the number of renderers the caller runs them on.
+func declareRenderRules(r *Report, n int) {
+	r.Rule("R-SIZE", "output matrix size term: QR/1-D max(requested, symbol + quiet zone) per axis (1-D height max(1, requested)); Data Matrix: requested size when the symbol fits in both directions, the bare symbol size otherwise", n)
+	r.Rule("R-SCALE", "module size term: the integer quotient out / (symbol + quiet zone), minimum over both axes for 2-D", n)
+	r.Rule("R-PAD", "padding term: (out - symbol*scale) / 2 per axis (Data Matrix: zero when the request is smaller than the symbol)", n)
+	r.Rule("R-BLOCK", "each set module (i, j) is painted as SetRegion(padX + i*scale, padY + j*scale, scale, scale) (1-D: (pad + i*scale, 0, scale, outHeight)) exactly when the input module is set; loops cover the whole symbol; the output starts cleared", n)
 }
 
 func pureGetter(o types.Object) bool {
